@@ -23,7 +23,8 @@ const (
 	zzStateTok = "STATE-1"
 )
 
-var zzURLAlphabet = []string{"https://as.example/ep", "http://evil.example/ep", "http://localhost:9000/ep", "javascript:alert(1)", "data:text/html,x", ""}
+// (the last entry is a script-capable scheme with a loopback authority: the https-or-loopback rule alone lets it through)
+var zzURLAlphabet = []string{"https://as.example/ep", "http://evil.example/ep", "http://localhost:9000/ep", "javascript:alert(1)", "data:text/html,x", "", "javascript://127.0.0.1/%0Aalert(1)//"}
 
 type zzOAuthEnv struct {
 	fetched    []string // every URL handed to the network, in order
@@ -366,7 +367,7 @@ func zzC15FetchASM() {
 	}
 	pkce := vChoice("pkce", 3)
 	field := vChoice("field", 9) // which URL field carries the drawn value; the others are good or empty
-	val := zzURLAlphabet[vChoice("value", 6)]
+	val := zzURLAlphabet[vChoice("value", 7)]
 	env.asmDoc = func(u string) (*oauthex.AuthServerMeta, error) {
 		m := &oauthex.AuthServerMeta{Issuer: issuer, AuthorizationEndpoint: zzAS + "/authorize", TokenEndpoint: zzAS + "/token"}
 		switch pkce {
